@@ -3,8 +3,8 @@ package main
 // SCHEMA, CODEC, BASE10 (C10) and the wiring rules SCALEWIRE (C13), CIRCLEWIRE (C14), ADDDEGREE (C15).
 
 import (
-	"go/constant"
 	"fmt"
+	"go/constant"
 	"go/token"
 	"go/types"
 	"reflect"
@@ -919,38 +919,43 @@ func ruleCircleWire(c *Ctx) {
 	// Ring.At: modulo len, negative wrapped
 	if fn := c.fn("util", "Ring.At"); fn != nil {
 		c.site(1)
-		var rem *ssa.BinOp
-		wrap := false
-		allInstrs(fn, func(in ssa.Instruction) {
-			b, ok := in.(*ssa.BinOp)
-			if !ok {
-				return
-			}
-			if b.Op == token.REM && b.X == ssa.Value(fn.Params[1]) {
-				if call, ok := b.Y.(*ssa.Call); ok && calleeName(&call.Call) == "builtin.len" {
-					rem = b
-				}
-			}
-		})
-		if rem != nil {
+		// decided by folding for the ring lengths crd uses (7 letters, 12 slots) and every index in -2n..3n
+		if problem, ok := c.ringAtByFolding(fn); ok {
+			c.check(problem == "", fname(fn), c.pos(fn.Pos()), fname(fn), "element ((i mod n) + n) mod n for n = 1, 7, 12 and i = -2n..3n (folded)", "Ring.At: "+problem+": subdominant / parallel conversions near slot 0 index out of range or land on the wrong slot")
+		} else {
+			var rem *ssa.BinOp
+			wrap := false
 			allInstrs(fn, func(in ssa.Instruction) {
 				b, ok := in.(*ssa.BinOp)
-				if !ok || b.Op != token.ADD || b.X != ssa.Value(rem) {
+				if !ok {
 					return
 				}
-				if call, ok := b.Y.(*ssa.Call); ok && calleeName(&call.Call) == "builtin.len" {
-					// guarded by rem < 0
-					for _, pc := range pathConds(b.Block()) {
-						if cmp, ok := pc.cond.(*ssa.BinOp); ok && cmp.Op == token.LSS && cmp.X == ssa.Value(rem) && pc.side {
-							if z, ok := constInt(cmp.Y); ok && z == 0 {
-								wrap = true
-							}
-						}
+				if b.Op == token.REM && b.X == ssa.Value(fn.Params[1]) {
+					if call, ok := b.Y.(*ssa.Call); ok && calleeName(&call.Call) == "builtin.len" {
+						rem = b
 					}
 				}
 			})
+			if rem != nil {
+				allInstrs(fn, func(in ssa.Instruction) {
+					b, ok := in.(*ssa.BinOp)
+					if !ok || b.Op != token.ADD || b.X != ssa.Value(rem) {
+						return
+					}
+					if call, ok := b.Y.(*ssa.Call); ok && calleeName(&call.Call) == "builtin.len" {
+						// guarded by rem < 0
+						for _, pc := range pathConds(b.Block()) {
+							if cmp, ok := pc.cond.(*ssa.BinOp); ok && cmp.Op == token.LSS && cmp.X == ssa.Value(rem) && pc.side {
+								if z, ok := constInt(cmp.Y); ok && z == 0 {
+									wrap = true
+								}
+							}
+						}
+					}
+				})
+			}
+			c.check(rem != nil && wrap, fname(fn), c.pos(fn.Pos()), fname(fn), "i mod len, plus len when negative", "Ring.At no longer reduces the index modulo the ring length with negative indices wrapped: subdominant / parallel conversions near slot 0 index out of range or land on the wrong slot")
 		}
-		c.check(rem != nil && wrap, fname(fn), c.pos(fn.Pos()), fname(fn), "i mod len, plus len when negative", "Ring.At no longer reduces the index modulo the ring length with negative indices wrapped: subdominant / parallel conversions near slot 0 index out of range or land on the wrong slot")
 	} else {
 		c.missing("util.Ring.At")
 	}
@@ -1184,4 +1189,26 @@ func ruleAddDegree(c *Ctx) {
 		})
 		c.check(good, fname(f), c.pos(f.Pos()), fname(f), "letter + accidental == wanted pitch class", "findNameBySemitone no longer compares letter pitch + accidental with the wanted pitch class")
 	}
+}
+
+// ringAtByFolding folds Ring.At on rings of n distinct constants; ok=false when it does not fold.
+func (c *Ctx) ringAtByFolding(fn *ssa.Function) (string, bool) {
+	for _, n := range []int{1, 7, 12} {
+		ring := &ListV{}
+		for k := 0; k < n; k++ {
+			ring.Elems = append(ring.Elems, &CVal{V: constant.MakeInt64(int64(100 + k)), T: types.Typ[types.Int]})
+		}
+		for i := -2 * n; i <= 3*n; i++ {
+			r, err := c.newFolder().foldCall(fn, []fval{{cv: ring}, {k: constant.MakeInt64(int64(i)), t: types.Typ[types.Int]}})
+			if err != nil || r.k == nil || r.k.Kind() != constant.Int {
+				return "", false
+			}
+			got, _ := constant.Int64Val(r.k)
+			want := int64(100 + ((i%n)+n)%n)
+			if got != want {
+				return fmt.Sprintf("on a ring of %d, index %d yields element %d, want element %d", n, i, got-100, want-100), true
+			}
+		}
+	}
+	return "", true
 }
